@@ -10,22 +10,22 @@ HOOK_COMMITS = subprocess.run(["git", "-C", "/repo", "log", "--format=%H %s", "-
 # id -> (technique, level text, level note, design ref)
 T = {
  "C01": ("runtime monitor on both boundaries: every inbound datagram of an enumerated classifier x function x ack x destination matrix is injected at HandleSpineMesssage and the complete outbound trace of every connection is compared with a response table written from the statement",
-         "held on every cell of the completely enumerated request matrix (classifier x function x ack requested/omitted/explicitly false x destination kind NodeManagement/server/client/special data feature/unknown in five address forms/foreign device x omitted device part, one cmd or the same cmd twice, plus writes the data layer refuses) for every feature type, cells shuffled per case, in two prior states, from three peers and from two source entities, with every datagram that does NOT reference the request predicted as well; the function rows per feature type are pinned; exploration because prior states and payloads are sampled; D62 (destination naming another device) is a known finding; session 2: cmd envelopes (function element absent/name/empty x four filter forms), part odd-filter (filter elements without cmdControl), part local-tree (destinations that become unknown through RemoveEntity, sequentially, inside the destination lookup and concurrently)",
+         "held on every cell of the completely enumerated request matrix (classifier x function x ack requested/omitted/explicitly false x destination kind NodeManagement/server/client/special data feature/unknown in five address forms/foreign device x omitted device part, one cmd or the same cmd twice, plus writes the data layer refuses) for every feature type, cells shuffled per case, in two prior states, from three peers and from two source entities, with every datagram that does NOT reference the request predicted as well; the function rows per feature type are pinned; exploration because prior states and payloads are sampled; D62 (destination naming another device) is a known finding; session 2: cmd envelopes (function element absent/name/empty x four filter forms), part odd-filter (filter elements without cmdControl), part local-tree (destinations that become unknown through RemoveEntity, sequentially, inside the destination lookup and concurrently), optional header elements (addressOriginator, timestamp) on five of eight requests",
          "trusts encoding/json of the repository's own model types as the wire format; message handling is synchronous without approval callbacks (C12 covers those)", "4/C01"),
  "C02": ("reference-model monitor: a reflective fold of the restricted-exchange rules, written from the statement, is compared after every update (API, reply, notify) with DataCopy for every registered list function; uniqueness, ordering and idempotence asserted per step",
-         "held on generated update histories over all 83 list functions (identifier fields, feature types and selector coverage pinned in the check) and all filter shapes incl. multi-match delete selectors, 1-3 named elements, sub-element filters and both filter orders, three delivery paths, a sentinel function per store, non-persisting probes that are read back, and on concurrent commuting updates (part commute, plain and race build); exploration; session 2: conjunctive selectors of 2-5 elements in four kinds through all delivery paths",
+         "held on generated update histories over all 83 list functions (identifier fields, feature types and selector coverage pinned in the check) and all filter shapes incl. multi-match delete selectors, 1-3 named elements, sub-element filters and both filter orders, three delivery paths, a sentinel function per store, non-persisting probes that are read back, and on concurrent commuting updates (part commute, plain and race build); exploration; session 2: conjunctive selectors of 2-5 elements in four kinds through all delivery paths, full updates listing items without (or with an incomplete) identifier, selector updates whose data names identifier elements",
          "generator respects the well-formedness the statement presupposes (unique identifiers per update, selectors on key fields)", "4/C02"),
  "C03": ("runtime monitor with a shadow binding registry: data, taps of all peers and events are bracketed around every injected write in histories of bind/unbind/disconnect/entity removal",
-         "held on generated interleaved histories from three peers incl. function-element/payload mismatches, re-announcements without reconnect, forced teardowns after them and writes after disconnect-and-reconnect; exploration; session 2: 'announced as writable' read from a discovery reply taken before every holder write, functions registered RW/write-only/RO/neither/not at all, AddFunctionType in mid-history, device-less peers",
+         "held on generated interleaved histories from three peers incl. function-element/payload mismatches, re-announcements without reconnect, forced teardowns after them and writes after disconnect-and-reconnect; exploration; session 2: 'announced as writable' read from a discovery reply taken before every holder write, functions registered RW/write-only/RO/neither/not at all, AddFunctionType in mid-history, device-less peers, drawn local entity layouts (nested, sibling, cousin addresses with equal feature ids)",
          "shadow registry is the reference model of C09", "4/C03"),
  "C04": ("runtime monitor + metamorphic pairs: real write datagrams from a bound peer against lists with mixed changeability flags; expectation computed from the statement (addressed set, all-or-nothing), each case run twice differing only in an unaddressed element's flag",
-         "held on generated writes of 19 shapes (incl. empty selectors and two commands per datagram) on the three flag-carrying list types (flag fields named by the check) and two controls, on lists of 1-4 elements stored sorted or unsorted, a third of the histories blind (no read between writes), all snapshots deep-copied before delivery; except the listed known-finding classes; exploration; session 2: delete filters naming one, two or sub-elements and six further delete+partial combinations",
+         "held on generated writes of 19 shapes (incl. empty selectors and two commands per datagram) on the three flag-carrying list types (flag fields named by the check) and two controls, on lists of 1-4 elements stored sorted or unsorted, a third of the histories blind (no read between writes), all snapshots deep-copied before delivery; except the listed known-finding classes; exploration; session 2: delete filters naming one, two or sub-elements and six further delete+partial combinations, bare delete filters and selector writes carrying another element's identifiers (histories continue over lists with duplicate identifiers)",
          "known findings D3/D6 are keyed by shape/deviation signatures that now mean 'changeable, addressed element' only (protected and unaddressed elements have their own signatures); D60 (second command of a datagram ignored but acknowledged) is a known finding; narrower in-class assertions stay active", "4/C04"),
  "C05": ("structure-aware mutational fuzzing at the inbound boundary with crash isolation (worker journal), a progress watchdog with goroutine-dump classification, and a health probe (valid discovery read) on every connection",
          "held on all mutated datagrams delivered in six connection states (incl. a mute connection, a stalled writer, reconnects in the middle and fresh peers afterwards), with an application goroutine calling the public API concurrently and from inside removal cascades, the health reply compared by payload and addressing with the one captured at setup; exploration",
          "a hang is declared only on a quiet period plus goroutines parked in spine-go frames; anything else the watchdog catches is inconclusive; D28 is recognised by state AND by decoding the message that caused it", "4/C05"),
  "C06": ("reference-model monitor: a reference remote tree per peer is updated in message order and compared with DeviceRemote/EntityRemote/FeatureRemote accessors, event multiset and registry cascade after every discovery message",
-         "held on generated histories of reply/partial/full announcements from three peers incl. the same address twice in one notification, notifications before the first reply, functions from outside the function table, partial-operation flags, and tree state and object identity asserted at publication time by a core-level handler; D61 (a full notification does not refresh a known entity) is a known finding; exploration; session 2: every optional element of the discovery message varies (lastStateChange absent/added/modified on listed entities, features and the device, labels, deviceInformation omitted, function element on full notifications)",
+         "held on generated histories of reply/partial/full announcements from three peers incl. the same address twice in one notification, notifications before the first reply, functions from outside the function table, partial-operation flags, and tree state and object identity asserted at publication time by a core-level handler; D61 (a full notification does not refresh a known entity) is a known finding; exploration; session 2: every optional element of the discovery message varies (lastStateChange absent/added/modified on listed entities, features and the device, labels, deviceInformation omitted, function element on full notifications), repeated announcements of known entities without entityType",
          "only device-consistent announcements; [0]/NodeManagement never announced away (that is C05/D28)", "4/C06"),
  "C07": ("runtime monitor of the discovery reply against the tree built through the API, per-subscriber notification check on AddEntity/RemoveEntity, and hook-forced interleavings of concurrent GetOrAddFeature (rendezvous between lookup miss and creation), also under the race detector",
          "held on generated configurations/histories incl. twin re-additions of the same address, every address ever announced resolved with and without device part through the API and through messages, and on forced two-goroutine windows; exploration",
@@ -34,40 +34,40 @@ T = {
          "held on sequential histories (incl. requested type Generic, NodeManagement clients, fresh peers that leave before discovery, re-announcements), part early (registrations before the peer's own discovery reply), part conc-rmw (acknowledged calls of different connections on different server features over a large registry) and on recorded concurrent histories (porcupine Ok); exploration; session 2: parts dup/dup-race (overlapping identical requests for one pair, wire and manager API) and the announcement class of the changed function",
          "porcupine timeout => inconclusive", "4/C08"),
  "C09": ("reference registry monitor; hook-forced concurrent bind duels (rendezvous between single-binding check and insertion); recorded histories checked with porcupine against a per-server-feature register model; race detector build",
-         "held on sequential histories, forced duels, part early, part conc-rmw (per-connection actors toggling their own server features over a registry pre-filled with 72-252 entries, state compared at the quiescent point after every round) and recorded concurrent histories; exploration; session 2: parts conc-window (complete requests of other connections inside the window of one or two parked binds, porcupine with the parked interval)",
+         "held on sequential histories, forced duels, part early, part conc-rmw (per-connection actors toggling their own server features over a registry pre-filled with 72-252 entries, state compared at the quiescent point after every round) and recorded concurrent histories; exploration; session 2: parts conc-window (complete requests of other connections inside the window of one or two parked binds, porcupine with the parked interval), replaced connections (SetupRemoteDevice for a registered SKI) in sequential histories and before duels",
          "porcupine timeout => inconclusive", "4/C09"),
  "C10": ("runtime monitor of registries, client-side bookkeeping, pending approvals (hook accessor), resolvability, events and the removed connection's tap around random teardowns, a third of them concurrent with other peers' traffic",
-         "held on generated teardown histories with three identically numbered peers, teardowns aimed at timer expiry, other peers' acknowledged registry calls placed inside the teardown window through a core-level handler, reconnects with the same SKI and message counter, local entities removed and client features un-announced before the teardown, registrations made before discovery completed and connections that never complete it; exploration; session 2: parts co-pending (writes of several senders pending on one feature around a teardown), part late-verdict (verdict for a write of a removed connection after the SKI reconnected with the same counter)",
+         "held on generated teardown histories with three identically numbered peers, teardowns aimed at timer expiry, other peers' acknowledged registry calls placed inside the teardown window through a core-level handler, reconnects with the same SKI and message counter, local entities removed and client features un-announced before the teardown, registrations made before discovery completed and connections that never complete it; exploration; session 2: parts co-pending (writes of several senders pending on one feature around a teardown), part late-verdict (verdict for a write of a removed connection after the SKI reconnected with the same counter), part leave-join (shared with C15)",
          "absence of further datagrams is observed over 5x the configured approval timeout after quiescence", "4/C10"),
  "C11": ("retained-reference monitor: every DataCopy result and event payload is fingerprinted when obtained and re-fingerprinted after every later update; store fingerprint across non-persisting and failing updates; concurrent readers under the race detector",
-         "held on generated update histories over every list function (domain pinned) and the use-case mutators, a third of them blind, failing updates through all four delivery paths, teardowns (re-announce, entity removal, disconnect) after which every retained reference is re-checked, fingerprints taken inside the event handler and callback, plus concurrent readers and DataCopy callers under the race detector; exploration; session 2: non-update operations and device-tree changes between snapshot and re-check, structured use-case data naming entities that come and go, ten unusual filter pairs",
+         "held on generated update histories over every list function (domain pinned) and the use-case mutators, a third of them blind, failing updates through all four delivery paths, teardowns (re-announce, entity removal, disconnect) after which every retained reference is re-checked, fingerprints taken inside the event handler and callback, plus concurrent readers and DataCopy callers under the race detector; exploration; session 2: non-update operations and device-tree changes between snapshot and re-check, structured use-case data naming entities that come and go, ten unusual filter pairs, time-value forms (relative/absolute/missing start and end) and the application encoding retained values",
          "fingerprint = canonical rendering with nil == empty list", "4/C11"),
  "C12": ("runtime monitor of approval callbacks, result datagrams and data around pending writes with logical time: long timeouts for answered plans, short for silent ones, hook gate to place the timeout inside the verdict window; plain and race builds",
-         "held on generated and (thorough) enumerated verdict vectors and delivery orders, reconnect and removal histories, and parts blocking/blocking-race with callbacks that do not return (mutual wait, blocked+deny, blocked+timeout, verdict at the end); exploration; session 2: part late-verdict (shared with C10)",
+         "held on generated and (thorough) enumerated verdict vectors and delivery orders, reconnect and removal histories, and parts blocking/blocking-race with callbacks that do not return (mutual wait, blocked+deny, blocked+timeout, verdict at the end); exploration; session 2: part late-verdict (shared with C10), parts repeat (writes that change nothing) and local-removal (RemoveEntity of the local entity under pending writes), approvals parked across a removal",
          "wall clock is used only to wait for the stack's own timers; expiry of a wait is inconclusive", "4/C12"),
  "C13": ("runtime monitor of message counters on the tap (uniqueness under concurrency, interval issue order), notify cache lookup, and a reference model of unanswered requests for de-duplication incl. black-box bounded-memory probe; race build",
          "held on concurrent sender workloads, sequential request/response histories incl. multi-cmd request lists, notify-cache lookups under mixed outbound traffic, a nil-writer connection (part mute) and a peer that answers from inside the connection write (part inflight); exploration; session 2: response forms (device parts omitted/unknown, own counter equal to the reference, SHIP entry point, two cmds) and connection states (peer not announced, re-announced under another address)",
          "D19 (LRU promotion on lookup) is a known finding keyed by signature", "4/C13"),
  "C14": ("callback-identity monitor: closures log (callback, reference, feature, data fingerprint); invocation multiset compared with a per-feature reference of pending callbacks after quiescence; racing registrations accept both orders",
-         "held on generated registration/arrival histories incl. restricted replies on a populated cache, result shapes with and without description, a bystander peer that disconnects, concurrent registration, and part blocked (callbacks parked on a gate while repeated references, late registrations and other references arrive); exploration",
+         "held on generated registration/arrival histories incl. restricted replies on a populated cache, result shapes with and without description, a bystander peer that disconnects, concurrent registration, and part blocked (callbacks parked on a gate while repeated references, late registrations and other references arrive); exploration, counters obtained from RequestRemoteData to two identically numbering connections, method values and rebuilt closures as duplicates",
          "quiescence by goroutine-count baseline, watchdog => inconclusive", "4/C14"),
  "C15": ("event-log monitor with unique tokens: exactly-once per (event, handler) under interval rules, core-before-application ordering, re-entrant handlers, progress watchdog; race build",
-         "held on generated subscribe/unsubscribe/publish histories with several publishers, mutual-wait handlers, and an integrated part where the connection writer parks the stack's own reaction to a discovery reply and the order core handler -> application handler -> return of HandleSpineMesssage is read from the log; exploration; session 2: burst stages with up to 1500 application handler invocations in flight, connections replaced without removal, part leave-join (a connection set up while the last one is being removed, window forced at a hook point)",
+         "held on generated subscribe/unsubscribe/publish histories with several publishers, mutual-wait handlers, and an integrated part where the connection writer parks the stack's own reaction to a discovery reply and the order core handler -> application handler -> return of HandleSpineMesssage is read from the log; exploration; session 2: burst stages with up to 1500 application handler invocations in flight, connections replaced without removal, part leave-join (a connection set up while the last one is being removed, window forced at a hook point), a snapshot stage (unsubscription inside the delivery window), parts cross/cross-race (30 ordered pairs of registry operations and discovery replies on two peers with the first event held in a core handler), the symmetric leave-join window",
          "publishing from inside a core handler is not demanded", "4/C15"),
  "C16": ("runtime monitor of heartbeat notifies on a subscribed tap plus hook records (stream enter/exit, chosen ticker period) and hook-forced Start/Stop windows; step-indexed period oracle; plain and race builds",
-         "held on sequential and concurrent Start/Stop/Remove/AddFunctionType histories for nine timeouts (incl. 150 ms, 1.25 s, 2 s, 2.1 s; announced text parsed by the check), a second entity whose heartbeat must stay intact, a late subscriber, data compared inside the writer and at stopped checkpoints, and histories on entity [0] in child processes; exploration; session 2: parts firstuse (first heartbeat calls of a fresh entity from several goroutines, manager reached through the entity at every call)",
+         "held on sequential and concurrent Start/Stop/Remove/AddFunctionType histories for nine timeouts (incl. 150 ms, 1.25 s, 2 s, 2.1 s; announced text parsed by the check), a second entity whose heartbeat must stay intact, a late subscriber, data compared inside the writer and at stopped checkpoints, and histories on entity [0] in child processes; exploration; session 2: parts firstuse (first heartbeat calls of a fresh entity from several goroutines, manager reached through the entity at every call), notifications judged in order of completion, late subscribers cloning the observed peer's device address",
          "median-gap cross-check is only a sanity check (inconclusive if it disagrees with the hook record)", "4/C16"),
  "C17": ("Go race detector over a systematic pairwise duel matrix of API/inbound operations (same- and cross-connection variants, hook-forced overlaps) plus a mixed soak; reports reduced to racy-variable signatures; progress watchdog with goroutine dump for deadlocks",
          "no race report and no stall on all pairs of 68 operations x repetitions and the soak, incl. a mute connection, removal of the busy entity, a second bound writer, application-side reads of event and callback payloads, callbacks entered = returned; exploration of schedules, not a proof of absence",
          "race detector only sees executed accesses; schedules are sampled", "4/C17"),
  "C18": ("round-trip monitor through the real encoder/decoder for every function of every feature type x 10 command shapes, static pass over the filter tag tables, and reflective value round trips of every payload/selector/elements type",
-         "function table enumerated completely (type names behind tags pinned), shapes incl. typed-nil filter parts and empty stores, part api (RequestRemoteData/SetData/UpdateData in a World, datagram taken from the tap); values sampled; exploration; session 2: commands encoded again after later ones were built (late, batch, sender cache), calls behind a history of ill-typed arguments, parts conc/conc-race (concurrent builders judged by value)",
+         "function table enumerated completely (type names behind tags pinned), shapes incl. typed-nil filter parts and empty stores, part api (RequestRemoteData/SetData/UpdateData in a World, datagram taken from the tap); values sampled; exploration; session 2: commands encoded again after later ones were built (late, batch, sender cache), calls behind a history of ill-typed arguments, parts conc/conc-race (concurrent builders judged by value), part periodgrid (end times on a calendar grid of whole days/hours/minutes/weeks through two hops)",
          "nil == empty list; relative end time compared to the second", "4/C18"),
  "C19": ("conversion monitor over dense and random numeric/temporal domains with exact integer/decimal oracles",
          "held on 2*10^6 decimals (bit-exact), random floats over 28 decades, dense, log-uniform and boundary durations, 53 hand-written and 2500 generated xs:duration spellings per case, instants over years 1-9999 with the text judged by a harness-side reader, relative time periods incl. negative ones and a delayed re-read; exploration; session 2: placed inputs (decimal carry and tail patterns, doubles within 2 ulp of landmarks, about 240 calendar landmarks in nine zones incl. the zero time, equivalent (number, scale) forms)",
          "D27 (durations >= 3277 days) is a known-finding class recognised by its averaging model; D67 (four malformed texts inside that class) is a second known finding", "4/C19"),
  "C20": ("reference-map monitor against HasUseCaseSupport and the decoded nodeManagementUseCaseData reply; concurrent read-modify-write cycles on disjoint entities with hook-forced overlap, union expectation and porcupine register model; race build",
-         "held on sequential histories (a third judged sparsely), concurrent runs with entity lifecycle operations and one entity split between two owners, a subscribed peer's last notification, and scenario slices overwritten after every add; exploration",
+         "held on sequential histories (a third judged sparsely), concurrent runs with entity lifecycle operations and one entity split between two owners, a subscribed peer's last notification, and scenario slices overwritten after every add; exploration, scenario lists of every shape (nil, empty, unordered, repeated) and unusual version spellings",
          "operations on different entities commute, so the expected final registry is the union", "4/C20"),
 }
 
